@@ -778,8 +778,8 @@ class Tensor:
             return Tensor(_scalar_arr(_sum_e(list(s.a.flatten()), s.dtype), s.dtype), s.dtype if s.dtype.cat else int64)._nf_from(s)
         return Tensor(_np(np.sum(s.a, axis=dim)), s.dtype)._nf_from(s)
 
-    def norm(s, p=2):
-        return linalg.vector_norm(s, p)
+    def norm(s, p=2, dim=None, keepdim=False):
+        return linalg.vector_norm(s, p, dim, keepdim)
 
     def min(s):
         return min(s)
@@ -1446,8 +1446,8 @@ def dist(a, b, p=2):
     return linalg.vector_norm(a - b, p)
 
 
-def norm(t, p=2):
-    return linalg.vector_norm(t, p)
+def norm(t, p=2, dim=None, keepdim=False):
+    return linalg.vector_norm(t, p, dim, keepdim)
 
 
 def set_printoptions(**k):
@@ -1490,10 +1490,22 @@ def _norm_value(vals, p, dt):
 
 class _Linalg:
     @staticmethod
-    def vector_norm(t, ord=2, dim=None):
-        if dim is not None:
-            raise HarnessError("vector_norm with dim")
+    def vector_norm(t, ord=2, dim=None, keepdim=False):
         dt = t.dtype if t.dtype.cat == 2 else float32
+        if dim is not None:
+            # norm of every 1-d slice along one dimension (each an atom keyed on its own entries)
+            if not isinstance(dim, builtins.int):
+                raise HarnessError("vector_norm with several dims")
+            d = dim % t.a.ndim
+            moved = np.moveaxis(t.a, d, -1)
+            out = np.empty(moved.shape[:-1], dtype=object)
+            for idx in np.ndindex(*moved.shape[:-1]):
+                r = _norm_value(list(moved[idx]), ord, dt)
+                NORM_LOG.append(("vector", ord, r, np.array(moved[idx], dtype=object)))
+                out[idx] = r
+            if keepdim:
+                out = np.expand_dims(out, d)
+            return Tensor(out, dt)._nf_from(t)
         vals = list(t.a.flatten())
         r = _norm_value(vals, ord, dt)
         NORM_LOG.append(("vector", ord, r, t.a.copy()))
